@@ -2,6 +2,7 @@ package main
 
 import (
 	"fmt"
+	"go/token"
 	"go/types"
 	"os"
 	"regexp"
@@ -72,6 +73,10 @@ func rulePrefix(c *Ctx, prefix string, want map[string]bool) {
 	bitsetOf := func(st *State, v ssa.Value) string {
 		s := ex.Canon(st, v).S
 		if strings.Contains(s, "Records[") {
+			if !strings.HasPrefix(s, pkgBitset+".New@") {
+				// sized by the known leases but not created empty here: bits may already be set
+				addb("KEEP.MARK", "the per-IA_PD bitmap of leases already given out does not start empty (it is "+shortName(stripAt(s))+", not a fresh bitset): a lease marked elsewhere is hidden from the hint-less hand-back and a new block is allocated instead")
+			}
 			return "givenOut"
 		}
 		if strings.HasPrefix(s, pkgBitset+".New@") {
@@ -134,6 +139,15 @@ func rulePrefix(c *Ctx, prefix string, want map[string]bool) {
 							addb("KEEP.NO-HINT", fmt.Sprintf("at %s the hint loops walk the request's IAPrefix list without it having been found non-empty (empty=%s): an IA_PD without IAPrefix options (with or without other sub-options) is not treated as one unspecified hint, so a known client gets NoPrefixAvail instead of its prefix", c.P.InstrPos(in), tri(empty)))
 						}
 					case strings.HasPrefix(m[1], "new@"):
+						// the placeholder is the *unspecified* hint: one element whose prefix is an empty
+						// network literal - a computed prefix would be matched like a hint the client sent
+						e0, _ := st.ReadLocal(strings.TrimSuffix(m[1], "[:]") + "[0]")
+						pf, _ := st.ReadLocal(strings.TrimPrefix(e0, "&") + ".Prefix")
+						if !strings.HasPrefix(pf, "&new@") {
+							addb("KEEP.NO-HINT", fmt.Sprintf("at %s the placeholder for a hint-less IA_PD does not carry an empty prefix literal but %s: the loops treat it as a hint the client sent, and the client's known leases are no longer handed back", c.P.InstrPos(in), shortName(stripAt(pf))))
+						} else if ip, _ := st.ReadLocal(pf[1:] + ".IP"); !strings.HasPrefix(ip, "zero:") {
+							addb("KEEP.NO-HINT", fmt.Sprintf("at %s the placeholder's prefix has its address set (%s): it is no longer the unspecified hint", c.P.InstrPos(in), shortName(stripAt(ip))))
+						}
 						if empty != 1 {
 							addb("KEEP.NO-HINT", fmt.Sprintf("at %s the placeholder hint replaces the request's hints although the IAPrefix list was not found empty (empty=%s)", c.P.InstrPos(in), tri(empty)))
 						}
@@ -209,6 +223,7 @@ func rulePrefix(c *Ctx, prefix string, want map[string]bool) {
 						okG = true
 					}
 				}
+				st.seen["handed:conv<uint>("+j+")"] = true
 				if !okS || !okG {
 					addb("KEEP.MARK", fmt.Sprintf("a known lease is handed back at %s without marking the hint satisfied and the lease given out (satisfied=%v givenOut[%s]=%v): the same lease can answer two hints or a new block is allocated as well", c.P.InstrPos(in), okS, shortName(j), okG))
 				}
@@ -309,7 +324,22 @@ func rulePrefix(c *Ctx, prefix string, want map[string]bool) {
 			}
 		}
 	}
+	// converse of MARK: a lease is marked as given out only where it is handed back - a bit set
+	// elsewhere (copied from another IA_PD, from an earlier reply) hides the lease from the
+	// hint-less hand-back, and a repeat of the message allocates a new block instead
+	markedNotHanded := func(st *State) string {
+		for _, l := range sortedKeys(st.seen) {
+			if strings.HasPrefix(l, "set:givenOut:") && !st.seen["handed:"+strings.TrimPrefix(l, "set:givenOut:")] {
+				return strings.TrimPrefix(l, "set:givenOut:")
+			}
+		}
+		return ""
+	}
 	ex.Hooks.BackEdge = func(st *State, from, header *ssa.BasicBlock) {
+		// (checked at every back edge: labels naming a loop variable do not outlive its loop)
+		if x := markedNotHanded(st); x != "" {
+			addb("KEEP.MARK", fmt.Sprintf("lease %s is marked as given out in an iteration that does not hand it back: a hint-less IA_PD no longer gets it, and a new block is allocated instead", shortName(x)))
+		}
 		if header.Index == outer {
 			counts["iter"]++
 			if !st.seen["addopt"] || st.seen["addopt+"] {
@@ -767,4 +797,81 @@ func closureRoot(fn *ssa.Function) *ssa.Function {
 		fn = fn.Parent()
 	}
 	return fn
+}
+
+// rulePoolIsParsedNetwork: every call of a bitmap allocator constructor in a
+// plugin's setup passes the network net.ParseCIDR returned (its second
+// result), unmodified: the allocator sizes its table from the mask alone and
+// takes pool.IP for the first block, so a base that is not the network address
+// makes the top indices map past the end of the pool.
+func rulePoolIsParsedNetwork(c *Ctx, rule string) {
+	ctor := c.P.Func("plugins/allocators/bitmap", "", "NewBitmapAllocator")
+	if ctor == nil {
+		c.R.Fatalf("ANCHOR-UNRESOLVED: bitmap.NewBitmapAllocator")
+		return
+	}
+	n := 0
+	for _, site := range c.P.CallersOf(ctor) {
+		fn := site.Parent()
+		if isFixture(fn) || site.Common().StaticCallee() != ctor {
+			continue
+		}
+		n++
+		key := fmt.Sprintf("%s pool argument#%d", shortFn(fn), n)
+		arg := site.Common().Args[0]
+		// net.IPNet passed by value: a load of the *net.IPNet ParseCIDR returned, or of a local copy of it
+		var src ssa.Value
+		if ld, ok := arg.(*ssa.UnOp); ok && ld.Op == token.MUL {
+			src = ld.X
+		}
+		isParsed := func(v ssa.Value) bool {
+			e, ok := v.(*ssa.Extract)
+			if !ok || e.Index != 1 {
+				return false
+			}
+			call, ok := e.Tuple.(*ssa.Call)
+			return ok && call.Call.StaticCallee() != nil && call.Call.StaticCallee().String() == "net.ParseCIDR"
+		}
+		ok := false
+		if src != nil {
+			ok, _ = staticOrigins(c, fn, src, isParsed)
+		}
+		if !ok {
+			c.R.bad(rule, key, c.P.InstrPos(site), shortFn(fn), "the pool handed to the allocator is not the network net.ParseCIDR returned: "+shortName(arg.String()))
+			continue
+		}
+		// nothing in the function writes into that network's fields (IP, Mask) or their bytes
+		bad := ""
+		eachInstr(fn, func(in ssa.Instruction) {
+			sto, isSto := in.(*ssa.Store)
+			if !isSto || bad != "" {
+				return
+			}
+			var base ssa.Value
+			switch a := sto.Addr.(type) {
+			case *ssa.FieldAddr:
+				base = a.X
+			case *ssa.IndexAddr:
+				if ld, ok := a.X.(*ssa.UnOp); ok {
+					if fa, ok := ld.X.(*ssa.FieldAddr); ok {
+						base = fa.X
+					}
+				}
+			}
+			if base == nil || namedOf(base.Type()) != "net.IPNet" {
+				return
+			}
+			if o, _ := staticOrigins(c, fn, base, isParsed); o {
+				bad = fmt.Sprintf("the parsed network is modified at %s before it is handed to the allocator: its base is no longer the network address the table is sized for", c.P.InstrPos(in))
+			}
+		})
+		if bad != "" {
+			c.R.bad(rule, key, c.P.InstrPos(site), shortFn(fn), bad)
+		} else {
+			c.R.ok(rule, key, c.P.InstrPos(site), shortFn(fn), "the pool is net.ParseCIDR's network, unmodified")
+		}
+	}
+	if n == 0 {
+		c.R.bad(rule, "NewBitmapAllocator callers", "-", "-", "no caller of the prefix allocator's constructor found")
+	}
 }
